@@ -315,13 +315,13 @@ func (ex *Exec) binop(st *State, op token.Token, x, y *Val, pos token.Pos) *Val 
 		case token.ADD:
 			return &Val{T: x.T, Term: ex.strCat(a, b)}
 		case token.LSS:
-			return bv(ex.D.app("str.lt", SBool, a, b))
+			return bv(ex.D.app("st.lt", SBool, a, b))
 		case token.GTR:
-			return bv(ex.D.app("str.lt", SBool, b, a))
+			return bv(ex.D.app("st.lt", SBool, b, a))
 		case token.LEQ:
-			return bv(not(ex.D.app("str.lt", SBool, b, a)))
+			return bv(not(ex.D.app("st.lt", SBool, b, a)))
 		case token.GEQ:
-			return bv(not(ex.D.app("str.lt", SBool, a, b)))
+			return bv(not(ex.D.app("st.lt", SBool, a, b)))
 		}
 	}
 	ex.unsupported(pos, fmt.Sprintf("operator %s on %s", op, srt))
@@ -996,7 +996,7 @@ func (ex *Exec) sliceExpr(st *State, e *ast.SliceExpr) *Val {
 		}
 		ex.safetyOb(st, "bounds", e.Pos(), and(ge(lo, intLit(0)), le(lo, hi), le(hi, ex.strLen(x.Term))))
 		st.assume(and(ge(lo, intLit(0)), le(lo, hi), le(hi, ex.strLen(x.Term))))
-		r := ex.D.app("str.sub", SStr, x.Term, lo, hi)
+		r := ex.D.app("st.sub", SStr, x.Term, lo, hi)
 		st.assume(eq(ex.strLen(r), sub(hi, lo)))
 		k := mk("k?", SInt)
 		st.assume(forall([]*Term{k}, implies(and(ge(k, intLit(0)), lt(k, sub(hi, lo))), eq(ex.strAt(r, k), ex.strAt(x.Term, add(lo, k)))), []*Term{ex.strAt(r, k)}))
